@@ -134,7 +134,8 @@ def reference_target_tie(tie):
     so = common.build_proc_macro()
     work = common.scratch("C10r")
     path = os.path.join(work, "refs.rs")
-    for REF in (REF_TARGETS, through_fragments(REF_TARGETS)):
+    # (third pass: the macro built by cargo's release profile, where `debug_assert!`s are compiled out)
+    for REF, so in ((REF_TARGETS, so), (through_fragments(REF_TARGETS), so), (REF_TARGETS, common.build_proc_macro(release=True))):
         open(path, "w").write(REF)
         rc, diags = common.rustc_compile(path, os.path.join(work, "refs"), so)
         tie["evaluations"] += 7
@@ -153,14 +154,14 @@ def reference_target_tie(tie):
                 k = next((j for j in range(min(len(got), len(want))) if got[j] != want[j]), 0)
                 tie["failing"].append({"what": "Into with a reference target returns a different field", "rust_source": REF,
                                        "observed": got[k] if k < len(got) else p.stderr[-300:], "expected_spec": want[k]})
-    tie["extra"]["reference_target_cases"] = 14
+    tie["extra"]["reference_target_cases"] = 21
     import shutil
     shutil.rmtree(work, ignore_errors=True)
 
 
 def main(tier):
     t0 = time.time()
-    proof = common.proof_obligations("C10", modules=["EduceModel.Props.C10", "EduceModel.Props.E2E"])
+    proof = common.proof_obligations("C10", modules=["EduceModel.Props.C10", "EduceModel.Props.E2E", "EduceModel.Props.Profile"])
     n_defs, cap_vals = (250, 6) if tier == "quick" else (3000, 20)
     tie = b1.run_b1("C10", P(), n_defs, cap_vals, common.seed())
     try:
